@@ -9,6 +9,9 @@ ids = [json.loads(l)["id"] for l in open(os.path.join(ROOT, "properties.jsonl"))
 # properties whose check is integrated and committed (one id per line); files of
 # properties still being built are ignored until their id is added here
 CLAIMED = set(l.strip() for l in open(os.path.join(ROOT, "tools", "claimed.txt")) if l.strip())
+_missing = sorted(k for k in CLAIMED if k not in PROPS)
+if _missing:
+    sys.exit("mkmanifest: configuration of claimed properties does not load: %s (fix tools/props/<id>.py first; MANIFEST.json left unchanged)" % _missing)
 PROPS = {k: v for k, v in PROPS.items() if k in CLAIMED}
 def translated(pid):
     """names of the Go functions that are translated from the current source on every run (tools/gen/<pid>.spec)"""
